@@ -535,6 +535,14 @@ theorem stream_writer_complete_partial (I : InnerEnc) (given : Option Name) (cs 
     writeAll I given cs = encodeOneShot I given cs.flatten :=
   writeAll_complete I given cs hstart hfin
 
+/-- T7.7 (writer) with the exception: some `write(chunk)` raises (`UnicodeEncodeError`) iff the writer has started
+on the whole text (`¬ WUnd`) and the inner encoder refuses the text it is handed (`werr`); otherwise exactly
+`writeAll` has been written — for every chunking -/
+theorem stream_writer_errors (I : InnerEnc) (given : Option Name) (cs : List (List Nat)) :
+    (writeAllE I given cs = none ↔ (cs ≠ [] ∧ werr given cs.flatten)) ∧
+    (∀ out, writeAllE I given cs = some out → out = writeAll I given cs) :=
+  writeAllE_eq I given cs
+
 /-- T7.1 through the stream classes over CPython's codecs: a text written chunk by chunk with
 `getwriter("css")(…, encoding=g)` and read back through `getreader("css")(…, encoding=g)` from a stream that hands
 out the bytes in ANY pieces is the text with the `@charset` name rewritten — for every known `g`, every
@@ -645,5 +653,7 @@ example : oneShot cpyInner none true (encodeOneShot cpyInnerEnc (some (cps' "UTF
 example : ¬ Agree .u16 ([[0x61], [0]] : List (List Nat)).flatten := by decide
 example : readAllE cpyInner none true [[0x61], [0xFF]] = none ∧ readAllE cpyInner none true [[0x61], [0xC3]] = some [0x61] := by
   decide
+example : writeAllE cpyInnerEnc (some (cps' "ascii")) [[0x61], [0xE9]] = none ∧
+    writeAllE cpyInnerEnc (some (cps' "latin-1")) [[0x61], [0xE9]] = some [0x61, 0xE9] := by decide
 
 end CssVerif.C07
